@@ -222,7 +222,7 @@ def pack_to_parquet_schedules(chk, r, schedulers, root):
                 if delay_seed is None:
                     return 0
                 if name in ("mv", "move", "open", "rm", "makedirs"):
-                    return rr.choice((0, 0, 0.002, 0.01))
+                    return rr.choice((0, 0, 0.002, 0.01, 0.03))
                 return 0
             fs = packfs.WrapFS(delay=delay)
             with dask.config.set(scheduler=sched, num_workers=workers):
@@ -235,7 +235,7 @@ def pack_to_parquet_schedules(chk, r, schedulers, root):
             ref = run("synchronous", 1, None, "ref")
             chk.evaluated()
             for sched, workers in list(schedulers) + ([("threads", 12)] if npart is None else []):
-                for ds in (1, 2):
+                for ds in ((1, 2, 3, 4, 5) if variant == "chains" and sched != "synchronous" else (1, 2)):
                     got = run(sched, workers, ds, f"{sched}{workers}_{ds}")
                     chk.evaluated()
                     if got != ref:
